@@ -196,18 +196,23 @@ def step (st : Unit) (n : Nat) (ln : Line) : Unit × List String :=
     let cs := flatten ns
     let wins := parseWins (a.getD 0 "-")
     let model := wins.map fun (off, len) => "ok:" ++ hexOfNats (streamContent content ns off len)
-    let ext := extent cs
+    -- a bounded window delivers exactly len bytes; size = MaxInt64 (offset 0) delivers up to the end of the last non-empty chunk
+    let ext := extent (cs.filter fun c => decide (0 < c.size))
+    let wantLen := fun (off len : Nat) => if len = maxInt64 then ext - off else len
+    let holeIn := fun (off len : Nat) => (List.range (wantLen off len)).any (fun i => cs.all fun c => !decide (covers c (off + i)))
     let js := if !wellFormed ns then [] else
       (wins.zip o).flatMap fun ((off, len), tok) =>
-        let want := (List.range (min (off + len) ext - off)).map fun i => specByte content cs (off + i)
         let got := match tok.splitOn ":" with
           | [_, hex] => tokBytes hex
           | _ => []
-        if got.length == want.length ∧ (List.range want.length).all (fun i => byteOk content cs (off + i) (got.getD i 999)) then []
-        else if (List.range want.length).any (fun i => cs.all fun c => !decide (covers c (off + i))) then
+        if tok.startsWith "ok:" ∧ got.length == wantLen off len ∧ (List.range (wantLen off len)).all (fun i => byteOk content cs (off + i) (got.getD i 999)) then []
+        else if holeIn off len then
           [specfail n "StreamContent/hole-not-zero-filled" s!"window {off}+{len}"]
         else [specfail n "StreamContent/wrong-bytes" s!"window {off}+{len}"]
-    (st, diff n ln model ++ js.take 1 ++ ["COV sc"])
+    (st, diff n ln model ++ js.take 1 ++ ["COV sc"]
+      ++ (if wins.any fun (off, len) => len ≠ maxInt64 ∧ holeIn off (min len (extent cs - off)) then ["COV sc.hole"] else [])
+      ++ (if wins.any fun (off, len) => len ≠ maxInt64 ∧ 0 < len ∧ extent cs < off + len then ["COV sc.tail-past-chunks"] else [])
+      ++ (if wins.any fun (off, len) => len = maxInt64 ∧ holeIn off len then ["COV sc.whole-file-hole"] else []))
   | "mz" =>
     let (ns, vids) := parseNodes (a.drop 2)
     let cs := flatten ns
